@@ -96,7 +96,7 @@ func c03Lengths(quick bool) []int {
 
 func c03Alphabet(quick bool) map[string]interface{} {
 	return map[string]interface{}{
-		"secrets":      "empty, 'a', 'fooman', 16x00, 63/64/65-byte, all 256 octet values; plus a sweep of every secret length 0..160 and 255,256,257,1000,4096 on a reduced plane (2 versions x 8 body lengths x 4 sequence numbers)",
+		"secrets":      "empty, 'a', 'fooman', 16x00, 63/64/65-byte, all 256 octet values; plus a sweep of every secret length 0..160 and 255,256,257,1000,4096 and of secrets with white space, NBSP/NEL or NUL at their edges on a reduced plane (2 versions x 8 body lengths x 4 sequence numbers)",
 		"sessions":     c03Sessions,
 		"versions":     []string{"c0", "c1"},
 		"seq":          tierPick(quick, "server direction {1,3,127,253,255}, client direction {1,2,3,127,128,254,255}", "server direction every odd 1..255, client direction every 1..255"),
@@ -167,12 +167,24 @@ func c03SecretSweep(c *Ctx) {
 		lens = append(lens, n)
 	}
 	lens = append(lens, 255, 256, 257, 1000, 4096)
-	for i, n := range lens {
+	// secrets are arbitrary octets: white space and NUL at the edges belong to the key like any other octet
+	edge := [][]byte{[]byte(" lead"), []byte("trail\n"), []byte("\t both \r\n"), []byte("\xc2\xa0nbsp\xc2\x85"), []byte(" "), []byte("\x00nul\x00"), []byte("in side"), []byte("\v\f")}
+	for i := 0; i < len(lens)+len(edge); i++ {
 		if !c.Mine(i) {
 			continue
 		}
-		key := make([]byte, n)
+		var key []byte
+		n := 0
+		if i < len(lens) {
+			n = lens[i]
+			key = make([]byte, n)
+		} else {
+			key = edge[i-len(lens)]
+		}
 		for j := range key {
+			if i >= len(lens) {
+				break
+			}
 			key[j] = byte(0x21 + (j*11+n)%90)
 		}
 		srv, err := newC03Server(key)
